@@ -4,10 +4,16 @@ CONSTANTS
   MaxHist = 0
   DropTables = TRUE
   SaveAll = TRUE
+  ReadBlock = 0
+  SizeSet = {1, 2, 3}
+  Rewrites = FALSE
+  Shape = "all"
+  Reuse = "off"
   PropOff = FALSE
   ImplOff = FALSE
   Tol = 1000
   TolPred = 1000000
+  XProp = FALSE
 CONSTRAINT Diag
 POSTCONDITION TraceAccepted
 CHECK_DEADLOCK FALSE
